@@ -23,6 +23,11 @@ CHECKS["C04"] = dict(level="exploration", engine="seqx",
    text="14 measures x 4 target columns (dense, sparse, numeric-string, mixed) x 5 group-bys, combined and single-measure, and timechart spans 1s/1m/1h with/without by, over 4 datasets with timestamps on / 1 ms around bucket edges, for every placement of flush/rotate between events (54 segmentations per 4-event dataset) x cardinality limits; every bucket is compared with the aggregate computed by the reference model over exactly the model events of that group / time bucket.",
    note="Numeric measures are asserted for numeric and numeric-string values (min/max/percentiles only for numbers); percentiles must lie between neighbouring order statistics; an all-absent group may be omitted. Grouping by sparse/mixed keys and measures over sparse/mixed columns are wrong or crash on the pinned tree (nondeterministically across segments): recorded per (measure family, group class, column class) in known_findings.json; vanilla classes (no group / dense group, dense column) have no known finding.",
    ref="DESIGN.md §4 C04")
+CHECKS["C05"] = dict(level="model_checking", engine="seqx",
+   technique="explicit enumeration of all timestamp assignments x layouts x limits/pages and of sort specifications x value sets x layouts on the real engine, checked pairwise against an order model",
+   text="All 81 assignments of 3 timestamps to 4 events (ties, out-of-order arrival, overlapping block/segment ranges) x layouts x GOMAXPROCS {1,2}: size limits, head n, and complete paging with page sizes 1..3 must give the n newest, newest first, every match exactly once. 7 (9) value sets incl. floats closer than 1e-4, sparse and mixed columns x layouts x 9 sort specifications: every pair of results whose order the keys determine must be in order, limits are prefixes, pages under sort concatenate to the sorted sequence.",
+   note="Relative order of different kinds (number/text/absent) and of ties is not asserted. Sort-index layouts and the block-scheduler functions (getNextBlocks/getValidRRCs) are not yet driven separately. Known: paging is not stable under ties (two entries).",
+   ref="DESIGN.md §4 C05")
 NOT_YET = {}
 props = [json.loads(l) for l in open("properties.jsonl")]
 m = {"version": 1, "setup_cmd": "./vcheck setup",
